@@ -159,6 +159,10 @@ def programs():
     out["opt.int-float-const"] = P([fn("f", "float", [("int", "a")], [("decl", "int", "b", B("+", V("a"), I(1))), ("decl", "float", "c", F(1.0)), ("return", B("+", V("c"), V("b")))])], inputs={"a": "int"})
     out["expr.float-cmp-int-div"] = P([fn("f", "int", [("float", "x"), ("float", "y"), ("float", "t")], [("return", B("/", B("+", B("+", B(">", V("x"), V("t")), B(">", V("y"), V("t"))), B("<=", V("x"), V("y"))), I(2)))])],
                                       inputs={"x": "float", "y": "float", "t": "float"})
+    # a side effect in the index of a compound assignment happens once (KNOWN FINDING D25 on the pinned tree: the rewrite `l op= r -> l = l op r`
+    # duplicates the target, so the index is evaluated twice)
+    out["sidefx.compound-index"] = P([fn("f", "int", [("int", "a")], [("decl", ("arr", "int", (3,)), "t", None), ("decl", "int", "i", I(0)), ("assign", ("idx", "t", [("post", "++", "i")]), "+=", V("a")),
+                                                                     ("return", B("+", B("+", B("*", ("idx", "t", [I(0)]), I(100)), B("*", ("idx", "t", [I(1)]), I(10))), V("i")))])], inputs={"a": "1..9"})
     # --- round-2 lessons: loops without a condition, a compound assignment as the for-increment, float storage holding Python ints
     out["for.no-condition"] = P([fn("f", "int", [("int", "n")], [("decl", "int", "s", I(0)), ("for", ("decl", "int", "i", I(0)), None, ("expr", ("pre", "++", "i")),
                                  [("if", B(">=", V("i"), V("n")), [("break",)], None), ("assign", V("s"), "=", B("+", B("*", V("s"), I(10)), V("i")))]), ("return", V("s"))])], inputs={"n": "0..3"})
@@ -336,6 +340,8 @@ def _mk(kind, part, parts):
                 continue
             if kind == "grouping" and not name.startswith(("expr.", "if.", "for.", "assign.")):
                 continue
+            if kind != "scalar" and name.startswith("sidefx."):
+                continue          # known finding D25 concerns the reference semantics (C01), not optimisation
             _run_program(R, f"E2E.{kind}", name, prog, options, minimal, "nsl.Compiler::Compiler.Compile")
     f.__doc__ = {"scalar": "Each program of the family: VM result and globals equal the reference semantics for all inputs.",
                  "optimize": "Each program compiled with `optimize`: same result and globals as the reference semantics (hence as the unoptimised module) for all inputs.",
